@@ -98,6 +98,56 @@ class JGen:
         s = "{" + self.ws() + ",".join(parts) + "}"
         return s, ("obj", members)
 
+    @staticmethod
+    def size_sweep() -> list:
+        """Deterministic: one document per string length 2^k + d (k = 5..12, d = -2..2), plain and with an escape last."""
+        out = []
+        for k in range(5, 13):
+            for d in (-2, -1, 0, 1, 2):
+                n = (1 << k) + d
+                for tail in ("", "\\n", "\u00e9"):
+                    body = "".join("abcdefgh xyz0123"[(j * 7 + k) % 16] for j in range(n - (1 if tail else 0))) + tail
+                    raw = '"' + body + '"'
+                    out.append(("[" + raw + ',"x"]', ("arr", [("str", raw), ("str", '"x"')]), f"sweep-string:{n}{'+tail' if tail else ''}"))
+        return out
+
+    def big_document(self):
+        """Documents whose SIZE is the point: strings whose length sits on and around powers of two, long arrays and
+        objects, deep nesting, long numbers (fast paths, windows and chunking only show from some size on)."""
+        r = self.r
+        kind = r.choice(["string", "string", "string_tail", "array", "object", "nesting", "number"])
+        if kind in ("string", "string_tail"):
+            n = (1 << r.randint(5, 12)) + r.choice([-3, -2, -1, 0, 1, 2, 3])
+            body = [r.choice("abcdefgh xyz0123") for _ in range(n)]
+            if kind == "string_tail":
+                # the last item before the closing quote is an escape or a non-ASCII character
+                body[-1] = r.choice(["\\n", "\\\\", '\\"', "\\u00e9", "\u00e9", "\U0001f600"])
+            raw = '"' + "".join(body) + '"'
+            lead = [("num", "1")] * r.choice([0, 1])
+            s = "[" + "".join("1," for _ in lead) + raw + r.choice(["", ",2", ', "x"']) + "]"
+            tail = [("num", "2")] if s.endswith(",2]") else [("str", '"x"')] if s.endswith('"x"]') else []
+            return s, ("arr", lead + [("str", raw)] + tail), f"{kind}:{n}"
+        if kind == "array":
+            n = r.choice([100, 255, 256, 1000, 1024, 1025])
+            items = [self.number() if r.random() < 0.7 else self.string() for _ in range(n)]
+            return "[" + ",".join(t for t, _ in items) + "]", ("arr", [tok for _, tok in items]), f"array:{n}"
+        if kind == "object":
+            n = r.choice([100, 256, 1000])
+            members = [('"k%d"' % k, self.number()) for k in range(n)]
+            return "{" + ",".join(f"{k}:{v[0]}" for k, v in members) + "}", ("obj", [(k, v[1]) for k, v in members]), f"object:{n}"
+        if kind == "nesting":
+            d = r.choice([30, 64, 100, 150])
+            s, tok = "7", ("num", "7")
+            for k in range(d):
+                if k % 2:
+                    s, tok = "[" + s + "]", ("arr", [tok])
+                else:
+                    s, tok = '{"a":' + s + "}", ("obj", [('"a"', tok)])
+            return s, tok, f"nesting:{d}"
+        digits = "".join(r.choice("0123456789") for _ in range(r.choice([100, 300, 1023, 1024])))
+        num = "1" + digits + r.choice(["", ".5", "e10"])
+        return "[" + num + "]", ("arr", [("num", num)]), f"number:{len(num)}"
+
     def document(self):
         depth = self.r.choice([1, 2, 3, 4, 6])
         s, tok = self.array(depth) if self.r.random() < 0.5 else self.obj(depth)
@@ -212,9 +262,18 @@ def json_worker(shard: dict) -> dict:  # noqa: PLR0912
             return
         acc.violation("c17-json", {"what": kind, "grammar": flavour, "mode": mode, "document": doc, "detail": detail})
 
-    for i in range(shard["count"]):
+    sweep = JGen.size_sweep()[shard["sweep_part"] :: 16] if "sweep_part" in shard else []
+    for i in range(shard["count"] + len(sweep)):
         rnd = random.Random(seed_int(shard["seed"], i))
-        doc, tok = JGen(rnd).document()
+        if i >= shard["count"]:
+            doc, tok, what = sweep[i - shard["count"]]
+            acc.count("json.size_sweep_documents")
+        elif i % 8 == 5:
+            doc, tok, what = JGen(rnd).big_document()
+            acc.count("json.big_documents")
+            acc.add_to("json.big_document_kinds", what)
+        else:
+            doc, tok = JGen(rnd).document()
         acc.count("json.documents")
         try:
             want = tok_value(tok)
@@ -250,8 +309,10 @@ def json_worker(shard: dict) -> dict:  # noqa: PLR0912
                     continue
                 acc.count("json.trees_mirrored")
                 # every proper prefix is rejected
-                if i % shard["prefix_every"] == 0 or len(doc) < 40:
-                    for k in range(len(doc)):
+                if i % shard["prefix_every"] == 0 or len(doc) < 40 or i % 8 == 5 or i >= shard["count"]:
+                    # (big documents: a seeded sample of prefixes plus the last 40)
+                    ks = range(len(doc)) if len(doc) <= 400 else sorted({*rnd.sample(range(len(doc)), 25), *range(len(doc) - 40, len(doc))})
+                    for k in ks:
                         try:
                             o.parse(start, doc[:k])
                         except PestParsingError:
@@ -604,7 +665,7 @@ def main(tier: str, seed: int) -> int:
     run = Run("C17", tier, seed)
     shards = []
     for j in range(16):
-        shards.append({"kind": "json", "seed": seed_int("C17", seed, "j", j), "count": run.pick(40, 1200), "prefix_every": run.pick(4, 1), "with_example_program": j == 0})
+        shards.append({"kind": "json", "seed": seed_int("C17", seed, "j", j), "count": run.pick(40, 1200), "prefix_every": run.pick(4, 1), "with_example_program": j == 0, "sweep_part": j})
     run_workers("pv.checks.c17", "json_worker", shards, timeout_s=run.pick(900, 7200), acc=run.acc)
     shards = [{"kind": "calc", "seed": seed_int("C17", seed, "c", j), "count": run.pick(220, 6000)} for j in range(16)]
     run_workers("pv.checks.c17", "calc_worker", shards, timeout_s=run.pick(900, 7200), acc=run.acc)
